@@ -626,6 +626,79 @@ func (h *hist) opParams() {
 	h.setParams(&p)
 }
 
+type openHit struct {
+	coll *big.Int
+	lev  sdk.Dec
+}
+
+// solveOpenBoundary searches, on discarded branches of the live state and through the real message server
+// and keeper only, for (collateral, leverage) whose opened position has health EXACTLY equal to the safety
+// factor: the open is tried on a branch in which the safety factor is 0 (so that it goes through whatever
+// the guard is), the stored position is valued in the stored pool with CLPSwap, and custody value / debt is
+// compared with the factor.  Health is about leverage/(leverage-1) * (1-fee)^2 whatever the depth, so the
+// leverages tried are those around the solution of that equation, and the collaterals small multiples of 20
+// (so that factor * debt can be integral).
+func (h *hist) solveOpenBoundary(t sdk.AccAddress, coll, bor string, sf sdk.Dec, want int) []openHit {
+	w := h.w
+	k := w.app.MarginKeeper
+	fee := w.app.ClpKeeper.GetSwapFeeParams(w.ctx).DefaultSwapFeeRate
+	keep := sdk.OneDec().Sub(fee)
+	r := sf.Quo(keep.Mul(keep)) // leverage/(leverage-1) wanted
+	if !r.GT(sdk.OneDec()) {
+		return nil
+	}
+	lev0 := r.Quo(r.Sub(sdk.OneDec()))
+	step := sdk.MustNewDecFromStr("0.01")
+	lev0 = sdk.NewDecFromInt(lev0.Quo(step).TruncateInt()).Mul(step)
+	poolSym := coll
+	if coll == "rowan" {
+		poolSym = bor
+	}
+	var hits []openHit
+	trials := 0
+	for dl := int64(-4); dl <= 4 && len(hits) < want; dl++ {
+		lev := lev0.Add(step.MulInt64(dl))
+		if lev.LTE(sdk.OneDec()) {
+			continue
+		}
+		for c := int64(20); c <= 6000 && len(hits) < want; c += 20 {
+			trials++
+			br, _ := w.ctx.CacheContext()
+			ok := protect(func() string {
+				p := k.GetParams(br)
+				p.SafetyFactor = sdk.ZeroDec()
+				k.SetParams(br, &p)
+				id := k.GetMTPCount(br) + 1
+				if _, err := w.msrv.Open(sdk.WrapSDKContext(br), &margintypes.MsgOpen{Signer: t.String(), CollateralAsset: coll,
+					CollateralAmount: sdk.NewUint(uint64(c)), BorrowAsset: bor, Position: margintypes.Position_LONG, Leverage: lev}); err != nil {
+					return "no"
+				}
+				m, err := k.GetMTP(br, t.String(), id)
+				if err != nil || m.Liabilities.IsZero() {
+					return "no"
+				}
+				pool, err := w.app.ClpKeeper.GetPool(br, poolSym)
+				if err != nil {
+					return "no"
+				}
+				val, err := k.CLPSwap(br, m.CustodyAmount, m.CollateralAsset, pool)
+				if err != nil {
+					return "no"
+				}
+				if sdk.NewDecFromBigInt(val.BigInt()).Quo(sdk.NewDecFromBigInt(m.Liabilities.BigInt())).Equal(sf) {
+					return "hit"
+				}
+				return "no"
+			})
+			if ok == "hit" {
+				hits = append(hits, openHit{big.NewInt(c), lev})
+			}
+		}
+	}
+	h.out.Hist["openboundary.trials"] += trials
+	return hits
+}
+
 func (h *hist) adminCloseAll(takeFund bool) {
 	msg := &margintypes.MsgAdminCloseAll{Signer: h.adm.String(), TakeMarginFund: takeFund}
 	if err := msg.ValidateBasic(); err != nil {
@@ -849,6 +922,24 @@ func (h *hist) directed(kind int) {
 		h.doClose(h.traders[1], k.GetMTPCount(w.ctx))
 		h.opBlock()
 		h.opBlock()
+	case 12: // opens landing exactly ON the safety factor (health == factor must be refused: a position is opened
+		// only if its health exceeds it), with the neighbours one unit of collateral above and below
+		for _, sfs := range []string{"1.05", "1.5"} {
+			p = k.GetParams(w.ctx)
+			p.LeverageMax = sdk.NewDec(20)
+			p.SafetyFactor = sdk.MustNewDecFromStr(sfs)
+			h.setParams(&p)
+			for _, side := range [][2]string{{"cusdc", "rowan"}, {"rowan", "cusdc"}} {
+				for _, hit := range h.solveOpenBoundary(t, side[0], side[1], p.SafetyFactor, 2) {
+					for _, dc := range []int64{0, 1, -1} {
+						h.doOpen(t, side[0], side[1], new(big.Int).Add(hit.coll, big.NewInt(dc)), margintypes.Position_LONG, hit.lev)
+					}
+					h.out.Hist["openboundary.hit."+sfs]++
+				}
+			}
+		}
+		for !h.opBlock() {
+		}
 	case 5: // every pool at once: positions on both sides of every pool, two epoch boundaries, everything closed
 		// again — a lookup of "the positions of pool X" that also returns those of a pool whose symbol
 		// merely starts with X (or of X + the start of an address) shows here as custody moved on the wrong pool
@@ -1010,9 +1101,9 @@ func init() {
 				perm[i], perm[j] = perm[j], perm[i]
 				w.denoms = append(w.denoms, perm[i])
 			}
-			h := &hist{w: w, out: out, rng: rng, fixedPools: nhist == 4, evenPools: nhist == 9}
+			h := &hist{w: w, out: out, rng: rng, fixedPools: nhist == 4, evenPools: nhist == 9 || nhist == 12}
 			h.setup()
-			if nhist < 12 {
+			if nhist < 13 {
 				h.directed(nhist)
 				nhist++
 				continue
